@@ -920,9 +920,13 @@ def solve_sylvester_diagonal(
         eigs_A, eigs_B = eigs[index[0]], eigs[index[1]]
 
         if index[0] != index[1] and index[:2] not in index_checked:
-            compare = np.equal if isinstance(Y, sympy.MatrixBase) else np.isclose
+            if isinstance(Y, sympy.MatrixBase):
+                shared = eigs_A.reshape(-1, 1) == eigs_B.reshape(1, -1)
+            else:
+                # Same criterion as for the energy denominators below.
+                shared = np.abs(eigs_A.reshape(-1, 1) - eigs_B.reshape(1, -1)) <= atol
 
-            if np.any(compare(eigs_A.reshape(-1, 1), eigs_B.reshape(1, -1))):
+            if np.any(shared):
                 raise ValueError("The subspaces must not share eigenvalues.")
             index_checked.add(index[:2])
 
